@@ -9,7 +9,10 @@ PROPERTIES = {
         "operator handlers are identities of Python arithmetic; OperatorDistribution / TupleDistribution / "
         "AttributeDistribution / FunctionDistribution / MethodDistribution sampling applies the Python operation to the "
         "sampled operands in order with keyword names preserved; evaluateInner rebuilds the node from the corresponding "
-        "operands; the DelayedArgument layer applies the operation to the context values of its parts",
+        "operands; the DelayedArgument layer applies the operation to the context values of its parts; vector operator lifting "
+        "(handlers, helpers, zero shortcuts as identities of vector arithmetic at every decoration site, Vector*Distribution nodes); "
+        "dispatch of distributionFunction / distributionMethod; toDistribution / toLazyValue; TypecheckedDistribution; "
+        "yaw/pitch/roll normalised by Constructible._specify",
         note="floats as reals (A1); getattr/call on sampled values are abstract (logged) operations; type inference is not a carrier",
         assumptions=[
             "A1: floats are mathematical reals (no rounding, no overflow, no NaN)",
@@ -17,10 +20,11 @@ PROPERTIES = {
             "argument'; that precondition is discharged as an obligation at every decoration site found in the tree",
         ],
         not_reached=[
-            "type inference (inferType/underlyingType/unifyingType): only affects inserted coercions",
-            "vector operator lifting in vectors.py (makeVectorOperatorHandler, vectorOperator, scalarOperator)",
-            "TypecheckedDistribution.sampleGiven, Constructible._specify normalisation",
+            "type inference (inferType/underlyingType/unifyingType) and the coercion rules (toScalar/toVector/canCoerceType): only affect inserted coercions",
             "object_types inradiusSupport / planarInradiusSupport (custom support functions over mesh geometry)",
+            "TruncatedNormal.supportInterval / sampleGiven (erf, erfinv not modelled)",
+            "toLazyValue on dicts and namedtuples; toDistribution on namedtuples",
+            "rotation of the zero vector by an Orientation (rotation-group axiom, C07)",
         ],
     ),
 }
